@@ -514,6 +514,10 @@ func c31Cases(f *verifx.Flags, tmpl *c31Template, run func(seed uint64, cfg c31C
 			{method: "OPTIONS", host: c31API, path: "/b-one/k", header: [][2]string{{"Origin", "http://ex.test"}, {"Access-Control-Request-Method", "PUT"}}, bodyK: "none"},
 			get("b-one."+c31API, "/k"), get("b-one."+c31API, "/"),
 			{method: "PUT", host: "b-one." + c31API, path: "/vh-new", body: c.newBody(r, "b-one", "vh-new"), bodyK: "object"},
+			// virtual-hosted keys keep a trailing slash ("folder/" and "folder" are different keys)
+			get("b-one."+c31API, "/dir/"),
+			{method: "PUT", host: "b-one." + c31API, path: "/folder/", body: c.newBody(r, "b-one", "folder/"), bodyK: "object"},
+			{method: "DELETE", host: "b-one." + c31API, path: "/dir/", bodyK: "none"},
 			get(c31API, "/b-one/"), get(c31API, "/B!/k"),
 			{method: "PUT", host: c31API, path: "/b-one/k", header: [][2]string{{"x-amz-copy-source", "nobucket"}}, bodyK: "none"},
 		}
